@@ -529,6 +529,72 @@ def c20_reject_all(ctx, case):
 
 
 # --------------------------------------------------------------------------
+# the factory normalises the spelling of the name (name.lower()): every accepted spelling forwards the same parameters
+# --------------------------------------------------------------------------
+def _spellings(name):
+    out = []
+    for sp in (name.capitalize(), name.upper(), name.title(), name[:-1] + name[-1].upper()):
+        if sp != name and sp not in out:
+            out.append(sp)
+    return out
+
+
+def enum_spelling(tier):
+    for name in NAMES:
+        kws = [{}] + [{k: PLAUSIBLE[k]} for k in PARAMS.get(name, [])]
+        if name == "taylor":
+            kws.append({"nbar": 6, "sll": -40})
+        for sp in _spellings(name):
+            for kw in kws:
+                for N in (8, 33):
+                    yield {"name": name, "spelling": sp, "N": N, "kw": [[k, kw[k]] for k in sorted(kw)]}
+
+
+@sub("C20.spelling", enum=enum_spelling, exhaustive=True,
+     doc="every window name in another letter case (Kaiser, KAISER, kaiseR; the factory lower-cases the name) x no parameter / each "
+         "documented shape parameter: the same samples as the lower-case call; an undocumented parameter is still rejected")
+def c20_spelling(ctx, case):
+    name, sp, N, kw = case["name"], case["spelling"], case["N"], dict((k, v) for k, v in case["kw"])
+    ctx.cls(name, "with " + "+".join(sorted(kw)) if kw else "no parameter")
+    ctx.nontrivial(bool(kw))
+    exp = W.create_window(N, name, **kw)
+    got = W.create_window(N, sp, **kw)
+    ctx.check(_same(got, exp), "create_window(%d, %r, **%r) differs from create_window(%d, %r, **%r)" % (N, sp, kw, N, name, kw),
+              sig=_sig(name, N, "spelling"))
+    bad = "foo" if "foo" not in PARAMS.get(name, []) else "bar"
+    try:
+        W.create_window(N, sp, **dict(kw, **{bad: 1}))
+    except ValueError:
+        pass
+    else:
+        ctx.fail("create_window(%d, %r, %s=1) accepted an undocumented parameter" % (N, sp, bad), sig=_sig(name, N, "spelling-reject"))
+
+
+# --------------------------------------------------------------------------
+# Blackman: "this implementation is valid for any alpha" (the Window docstring uses alpha=1)
+# --------------------------------------------------------------------------
+def enum_blackman(tier):
+    for alpha in (-0.5, 0.5, 0.75, 1, 1.0, 1.5, 2, 2.0, 10.0, 1 - 2 ** -52, 1 + 2 ** -52, 0, 0.0, 1e-300):
+        for N in list(range(1, 41)) + [64, 65, 512, 1000, 4097]:
+            yield {"name": "blackman", "N": N, "kw": {"alpha": alpha}}
+
+
+@sub("C20.blackman_any", enum=enum_blackman, exhaustive=True,
+     doc="window_blackman / create_window / Window for alpha outside [0, 0.5] and at the values where a coefficient vanishes "
+         "(alpha = 0, 1): a0 - a1 cos + a2 cos with a0 = (1-alpha)/2, a1 = 1/2, a2 = alpha/2, same samples on the three routes")
+def c20_blackman_any(ctx, case):
+    N, kw = case["N"], dict(case["kw"])
+    ctx.cls("alpha=%r" % kw["alpha"], _bucket(N))
+    ctx.nontrivial(N >= 3)
+    w = W.create_window(N, "blackman", **kw)
+    check_shape(ctx, w, "blackman", N, kw)
+    ctx.check(_same(w, W.window_blackman(N, **kw)), "create_window(%d, 'blackman', **%r) differs from window_blackman" % (N, kw),
+              sig=_sig("blackman", N, "forward"))
+    check_closed(ctx, w, "blackman", N, kw, atol=1e-9 * max(1.0, abs(float(kw["alpha"]))))
+    check_object(ctx, w, "blackman", N, kw)
+
+
+# --------------------------------------------------------------------------
 # the Window object keeps reporting the same samples while it is being used
 # --------------------------------------------------------------------------
 USES = ["response", "frequencies", "str", "compute_response", "compute_response_nonorm", "compute_response_nfft",
